@@ -126,7 +126,7 @@ impl EncryptedBody {
 		})?;
 		let nonce = from_hex(&self.nonce)
 			.map_err(|_| Error::APIEncryption("EncryptedBody Dec: Invalid Nonce".to_string()))?;
-		if nonce.len() < 12 {
+		if nonce.len() != 12 {
 			return Err(Error::APIEncryption(
 				"EncryptedBody Dec: Invalid Nonce length".to_string(),
 			)
